@@ -367,6 +367,11 @@ func (g *gen) float(inline bool) {
 	g.enter("float", id, false)
 	g.lineBreaks += 2
 	g.inOOF++
+	// no forced break inside an out-of-flow box: it splits the box, and the remainder of a split
+	// float / absolute box is lost when the main flow ends first (finding float-last-child-lost)
+	saveNB := g.noBreak
+	g.noBreak = true
+	defer func() { g.noBreak = saveNB }()
 	saveInl := g.inInl
 	g.inInl = 0
 	g.depth++
@@ -417,6 +422,9 @@ func (g *gen) abs(inline bool) {
 	g.enter("abs", id, false)
 	g.lineBreaks += 2
 	g.inOOF++
+	saveNB := g.noBreak
+	g.noBreak = true
+	defer func() { g.noBreak = saveNB }()
 	saveInl := g.inInl
 	g.inInl = 0
 	g.depth++
@@ -654,6 +662,10 @@ func (g *gen) list() {
 	st := g.blockStyle(true)
 	// the list style type is always explicit, so the expected marker text needs no UA style sheet
 	lstype := g.pick("disc", "disc", "circle", "square", "decimal", "decimal", "lower-alpha", "upper-roman", "none")
+	if g.gotext {
+		// markers are pre-wrap text: a wrapped marker hits finding gotext-preserved-space
+		lstype = "none"
+	}
 	st = append(st, "list-style-type:"+lstype)
 	if g.chance(0.2) {
 		st = append(st, "list-style-position:inside")
@@ -799,7 +811,8 @@ func (g *gen) table() {
 			f.Strict = true
 			g.inHdr = true
 		}
-		for rI := 0; rI < nrows && g.budget(); rI++ {
+		// never an empty row group (finding fixed-layout-empty-first-group, and nothing to observe)
+		for rI := 0; rI < nrows && (rI == 0 || g.budget()); rI++ {
 			var rst []string
 			if !hdr && g.chance(0.08) {
 				rst = append(rst, "break-inside:avoid")
@@ -1161,7 +1174,7 @@ func (g *gen) plainTable(bodyV float64) bool {
 	}
 	rows := 1 + g.r.Intn(10)
 	g.sb.WriteString("<tbody>")
-	for r := 0; r < rows && g.budget(); r++ {
+	for r := 0; r < rows && (r == 0 || g.budget()); r++ {
 		g.sb.WriteString("<tr>")
 		for c := 0; c < cols; c++ {
 			cid := g.newID("c")
